@@ -338,6 +338,16 @@ RcvNTemplates ==
   {<<"recover", x, s>> : x \in NDInner, s \in NDStrats}
   \cup {<<"then", <<"recover", x, s>>, RestCap>> : x \in NDInner, s \in NDStrats}
   \cup {<<"collect", <<"rep", <<"recover", x, s>>, 0, Inf>>, "vec">> : x \in NDInner, s \in NDStrats}
+(* C15 / C20: counts that come from the input may be anything: a configured bound as large as a count can be (the  *)
+(* harness reads Huge as usize::MAX) must behave like any other bound -- never reached as a minimum, never binding as *)
+(* a maximum                                                                                                          *)
+Huge == 2000000000
+CfgTemplates ==
+  {<<"withctx", VI(n), <<"collect", <<cf, <<"rep", a, b[1], b[2]>>>>, k>>>> :
+      n \in {0, 1, Huge}, cf \in {"cfgrep", "cfgrepmin", "cfgrepmax"}, a \in {J("a"), <<"any">>}, b \in {<<0, Inf>>, <<1, 2>>}, k \in {"vec", "count"}}
+  \cup {<<"withctx", VI(Huge), <<"run", <<cf, <<"rep", J("a"), 0, Inf>>>>>>>> : cf \in {"cfgrep", "cfgrepmin", "cfgrepmax"}}
+  \cup {<<"thenctx", <<"map", <<"any">>, "big">>, <<"collect", <<cf, <<"rep", J("a"), 0, Inf>>>>, "vec">>>> : cf \in {"cfgrep", "cfgrepmin", "cfgrepmax"}}
+
 (* C16: a failure inside a nested input meets the pending error of an earlier alternative that failed at the very   *)
 (* position the nested failure is re-homed to (right after the token tree), in both orders of the alternatives       *)
 NstInner == {J("a"), <<"then", J("a"), J("b")>>, <<"collect", <<"rep", J("a"), 0, Inf>>, "vec">>, <<"validate", <<"any">>, "1", "F">>}
@@ -430,12 +440,12 @@ SlcInner == {J("a"), JJ("a", "b"), <<"ornot", J("b")>>, <<"any">>, <<"collect", 
 SlcTemplates == {<<"then", <<"toslice", x>>, RestCap>> : x \in SlcInner}
                 \cup {<<"then", J("a"), <<"then", <<"toslice", x>>, RestCap>>>> : x \in SlcInner}
                 \cup {<<"then", <<"mw", <<"toslice", x>>>>, <<"toslice", RestCap>>>> : x \in SlcInner}
-Templates(fam) == CASE fam = "memoT" -> MemoTemplates [] fam = "nstT" -> NstTemplates [] fam = "progT" -> ProgTemplates [] fam = "slcT" -> SlcTemplates [] fam = "extT" -> ExtTemplates [] fam = "gapT" -> GapTemplates [] fam = "gapTi" -> {g \in GapTemplates : ~HasOp(g, {"any", "not"})} [] fam = "rcvE" -> RcvETemplates [] fam = "stat" -> StatGrammars [] fam = "rcvN" -> RcvNTemplates [] fam = "txt" -> TxtTemplates [] fam = "txtc" -> TxtCTemplates
+Templates(fam) == CASE fam = "memoT" -> MemoTemplates [] fam = "cfgT" -> CfgTemplates [] fam = "nstT" -> NstTemplates [] fam = "progT" -> ProgTemplates [] fam = "slcT" -> SlcTemplates [] fam = "extT" -> ExtTemplates [] fam = "gapT" -> GapTemplates [] fam = "gapTi" -> {g \in GapTemplates : ~HasOp(g, {"any", "not"})} [] fam = "rcvE" -> RcvETemplates [] fam = "stat" -> StatGrammars [] fam = "rcvN" -> RcvNTemplates [] fam = "txt" -> TxtTemplates [] fam = "txtc" -> TxtCTemplates
                     \* byte inputs have no text::newline; the radix family looks at int / digits only
                     [] fam = "txtb" -> {g \in TxtTemplates \cup TxtCTemplates : ~HasOp(g, {"newline"}) /\ g \notin {TUKw(<<"E", "a">>), <<"then", TUKw(<<"E", "a">>), RestCap>>}}
                     [] fam = "txtr" -> {<<"then", tp, RestCap>> : tp \in {TDigits(r) : r \in {"2", "8", "10", "16", "36"}} \cup {TInt(r) : r \in {"2", "8", "10", "16", "36"}}} [] fam = "drpT" -> DrpTemplates [] fam = "rcvT" -> RcvTemplates [] fam = "lblT" -> LblTemplates
                     [] fam = "pratt" -> PrattTemplates [] fam = "prattP" -> PrattPTemplates [] fam = "prattM" -> PrattMTemplates [] fam = "prattRec" -> PrattRTemplates [] fam = "rec" -> RecTemplates [] fam = "lrec" -> LRecTemplates [] fam = "repT" -> RepTemplates
-TemplateFams == {"progT", "nstT", "rec", "lrec", "repT", "pratt", "prattP", "prattM", "prattRec", "memoT", "rcvT", "lblT", "drpT", "txt", "txtc", "txtb", "txtr", "gapT", "gapTi", "rcvN", "stat", "rcvE", "extT", "slcT"}
+TemplateFams == {"progT", "cfgT", "nstT", "rec", "lrec", "repT", "pratt", "prattP", "prattM", "prattRec", "memoT", "rcvT", "lblT", "drpT", "txt", "txtc", "txtb", "txtr", "gapT", "gapTi", "rcvN", "stat", "rcvE", "extT", "slcT"}
 
 (* Instrumentation (C01, C18): every node of a grammar is wrapped in probe(enter).ignore_then(node).then_ignore(   *)
 (* probe(exit)); a probe consumes nothing, never fails and logs (id, cursor, inspector state, context), so the   *)
